@@ -16,5 +16,14 @@ for rel, quals in ref["__nested__"].items():
         names = [a.arg for a in args.posonlyargs + args.args + args.kwonlyargs]
         params.setdefault(rel, {})[qual] = names
 ref["__nested_params__"] = params
+# a fingerprint of each nested function's body (attribute and call names), to recognise it after a renaming
+fps = {}
+for rel, quals in ref["__nested__"].items():
+    for qual in quals:
+        func = repo.func(rel, qual)
+        names = sorted({n.attr for n in ast.walk(func) if isinstance(n, ast.Attribute)} |
+                       {n.func.id for n in ast.walk(func) if isinstance(n, ast.Call) and isinstance(n.func, ast.Name)})
+        fps.setdefault(rel, {})[qual] = names
+ref["__nested_fp__"] = fps
 json.dump(ref, open(path, "w"), indent=1, sort_keys=True)
 print(sum(len(v) for v in params.values()), "nested functions recorded")
